@@ -499,7 +499,7 @@ c04_restore!(c04_restore_sideright_b16, ChannelAssignment::SideRight, BitsPerSam
 // @bound block size 2, stereo SideRight, 31 bits-per-sample (STREAMINFO-referenced; side channel fills an i32), 4 arbitrary in-type samples (VERBATIM subframes)
 c04_restore!(c04_restore_sideright_b31, ChannelAssignment::SideRight, BitsPerSample::Streaminfo(sbc32(31)));
 
-// @harness prop=C04 tier=thorough expect=pass timeout=600
+// @harness prop=C04 tier=quick expect=pass timeout=600
 // @units decode::read_subframes(SideRight) decode::read_subframe audio::Frame::resized_stereo
 // @bound block size 2, stereo SideRight, 32 bits-per-sample (33-bit side channel, i64 path), 4 arbitrary in-type samples (VERBATIM subframes)
 c04_restore!(c04_restore_sideright_b32, ChannelAssignment::SideRight, BitsPerSample::Bps32);
@@ -514,7 +514,7 @@ c04_restore!(c04_restore_midside_b16, ChannelAssignment::MidSide, BitsPerSample:
 // @bound block size 2, stereo MidSide, 31 bits-per-sample (STREAMINFO-referenced; side channel fills an i32), 4 arbitrary in-type samples (VERBATIM subframes)
 c04_restore!(c04_restore_midside_b31, ChannelAssignment::MidSide, BitsPerSample::Streaminfo(sbc32(31)));
 
-// @harness prop=C04 tier=thorough expect=pass timeout=600
+// @harness prop=C04 tier=quick expect=pass timeout=600
 // @units decode::read_subframes(MidSide) decode::read_subframe audio::Frame::resized_stereo
 // @bound block size 2, stereo MidSide, 32 bits-per-sample (33-bit side channel, i64 path), 4 arbitrary in-type samples (VERBATIM subframes)
 c04_restore!(c04_restore_midside_b32, ChannelAssignment::MidSide, BitsPerSample::Bps32);
@@ -1068,3 +1068,235 @@ c06_channel_seek!(
 // @stubs decode::Decoder::read_frame(model stream)
 // @bound no seek table; history: one fill_buf + consume(k), k symbolic 0..=2, before the seek (the frame decoded before the seek must not be handed out afterwards)
 c06_channel_seek!(c06_channel_reader_seek_after_read, None, true);
+
+// ===========================================================================
+// C07: exactly-once, in-order delivery over the model stream
+// ===========================================================================
+
+macro_rules! c07_channel_sequence {
+    ($name:ident, $channels:expr, $steps:expr) => {
+        #[kani::proof]
+        #[kani::unwind(8)]
+        #[kani::stub(Decoder::read_frame, model_read_frame)]
+        fn $name() {
+            let mut rd = FlacChannelReader {
+                decoder: model_decoder($channels, 16, None),
+                consumed: 0,
+                frames_start: None,
+            };
+            // position (channel-independent sample) of the next undelivered sample
+            let mut next: u64 = 0;
+            let mut step = 0;
+            while step < $steps {
+                let k: usize = kani::any();
+                {
+                    let b = rd.fill_buf();
+                    assert!(b.is_ok());
+                    let b = b.unwrap();
+                    assert!(b.len() == $channels);
+                    let n = b[0].len();
+                    if n == 0 {
+                        // end of stream is only signalled at the end, and then for good
+                        assert!(next == MT);
+                    }
+                    let mut c = 0;
+                    while c < $channels {
+                        assert!(b[c].len() == n);
+                        let mut i = 0;
+                        while i < n {
+                            assert!(b[c][i] as u64 == (next + i as u64) * $channels + c as u64);
+                            i += 1;
+                        }
+                        c += 1;
+                    }
+                    kani::assume(k <= n);
+                    std::mem::forget(b);
+                }
+                rd.consume(k);
+                next += k as u64;
+                step += 1;
+            }
+            kani::cover!(next == MT);
+            std::mem::forget(rd);
+        }
+    };
+}
+
+// @harness prop=C07 tier=quick expect=pass timeout=1500 replay=driver
+// @units decode::FlacChannelReader::fill_buf decode::FlacChannelReader::consume
+// @stubs decode::Decoder::read_frame(model stream)
+// @bound mono model stream (4 samples in 2 frames); 4 rounds of fill_buf + consume(k) with symbolic k <= available (covers partial consumes, refill exactly when empty, and polling after the end)
+// @oracle every fill_buf starts at the first undelivered position and carries consecutive positions (no gap, no repeat); an empty buffer only once everything was delivered, and again on every later call
+c07_channel_sequence!(c07_channel_reader_sequence_mono, 1, 4);
+
+// @harness prop=C07 tier=thorough expect=pass timeout=2400 replay=driver
+// @units decode::FlacChannelReader::fill_buf decode::FlacChannelReader::consume
+// @stubs decode::Decoder::read_frame(model stream)
+// @bound stereo model stream; 3 rounds; each channel slice carries its own de-interleaved positions
+c07_channel_sequence!(c07_channel_reader_sequence_stereo, 2, 3);
+
+// ===========================================================================
+// C05/C04: end-of-stream accounting of Decoder::read_frame - one inductive step
+// from an arbitrary state satisfying the invariant current_sample <= total
+// ===========================================================================
+
+/// a source of arbitrary bytes (never ends)
+pub struct AnyBytes;
+
+impl std::io::Read for AnyBytes {
+    fn read(&mut self, buf: &mut [u8]) -> std::io::Result<usize> {
+        if buf.is_empty() {
+            return Ok(0);
+        }
+        buf[0] = kani::any();
+        Ok(1)
+    }
+}
+
+/// stand-in for FrameHeader::read: any header that passed the (separately
+/// checked) field tables and STREAMINFO consistency tests, or an error
+fn stub_header_read<R: std::io::Read>(_reader: &mut R, streaminfo: &Streaminfo) -> Result<FrameHeader, Error> {
+    if kani::any() {
+        return Err(Error::Crc8Mismatch);
+    }
+    let b: u16 = kani::any();
+    kani::assume(b >= 1 && b <= streaminfo.maximum_block_size);
+    Ok(FrameHeader {
+        blocking_strategy: false,
+        block_size: BlockSize::Uncommon16(b),
+        sample_rate: SampleRate::Hz44100,
+        channel_assignment: ChannelAssignment::Independent(Independent::Mono),
+        bits_per_sample: BitsPerSample::Bps16,
+        frame_number: FrameNumber(0),
+    })
+}
+
+/// stand-in for read_subframes: consumes two arbitrary bytes (so that the
+/// CRC-16 register ends up arbitrary) and succeeds or fails
+fn stub_read_subframes<R: BitRead>(mut reader: R, _header: &FrameHeader, _buf: &mut Frame) -> Result<(), Error> {
+    let _ = reader.read::<8, u8>();
+    let _ = reader.read::<8, u8>();
+    if kani::any() {
+        Err(Error::InvalidPartitionOrder)
+    } else {
+        Ok(())
+    }
+}
+
+// @harness prop=C05,C04 tier=quick expect=pass timeout=900 replay=driver
+// @units decode::Decoder::read_frame (header check, short-block rule, remaining-sample accounting, CRC-16 gate, sample counter)
+// @stubs stream::FrameHeader::read decode::read_subframes
+// @bound one call from an arbitrary decoder state with a known total (1..2^36-1) and current_sample <= total; header block size 1..=65535 arbitrary; subframe parsing succeeds or fails; CRC-16 register arbitrary
+// @assume state invariant current_sample <= total (re-established by this very step: that is the induction)
+// @oracle no panic; remaining 0 => Ok(None) without touching the source; Ok(Some) => CRC-16 register valid, block <= remaining, (block == remaining or block > 14), counter advanced by exactly the block size and still <= total; Err => counter unchanged
+#[kani::proof]
+#[kani::unwind(4)]
+#[kani::stub(FrameHeader::read, stub_header_read)]
+#[kani::stub(read_subframes, stub_read_subframes)]
+fn c05_read_frame_accounting_known_total() {
+    let total: u64 = kani::any();
+    kani::assume(total >= 1 && total < (1 << 36));
+    let cur: u64 = kani::any();
+    kani::assume(cur <= total);
+    let mut si = model_streaminfo(1, 16, total);
+    si.maximum_block_size = kani::any();
+    let mut d = Decoder::new(AnyBytes, BlockList::new(si));
+    d.current_sample = cur;
+    let r = d.read_frame().map(|f| f.is_some());
+    match r {
+        Ok(true) => {
+            let adv = d.current_sample - cur;
+            assert!(d.current_sample > cur && d.current_sample <= total);
+            assert!(adv <= 65535);
+            assert!(adv == total - cur || adv > 14);
+        }
+        Ok(false) => assert!(cur == total && d.current_sample == cur),
+        Err(_) => assert!(d.current_sample == cur),
+    }
+    kani::cover!(matches!(r, Ok(true)) && d.current_sample == total);
+    kani::cover!(matches!(r, Err(Error::ShortBlock)));
+    kani::cover!(matches!(r, Err(Error::Crc16Mismatch)));
+    std::mem::forget(r);
+    std::mem::forget(d);
+}
+
+// ===========================================================================
+// C06 slice (iii) for the sample and byte readers: buffer invalidation
+// ===========================================================================
+
+macro_rules! c06_stale_sample {
+    ($name:ident, $table:expr, $target:expr) => {
+        #[kani::proof]
+        #[kani::unwind(6)]
+        #[kani::stub(Decoder::read_frame, model_read_frame)]
+        fn $name() {
+            let mut buf: VecDeque<i32> = VecDeque::new();
+            buf.push_back(kani::any());
+            buf.push_back(kani::any());
+            buf.push_back(kani::any());
+            let mut d = model_decoder(1, 16, $table);
+            d.current_sample = MB; // one frame was decoded before the seek
+            d.reader.frame = 1;
+            let mut rd = FlacSampleReader {
+                decoder: d,
+                buf,
+                frames_start: Some(MFS),
+            };
+            let r = rd.seek($target);
+            assert!(r.is_ok());
+            assert!(rd.buf.is_empty());
+            assert!(rd.decoder.current_sample == $target && rd.decoder.reader.frame == $target / MB);
+            std::mem::forget(r);
+            std::mem::forget(rd);
+        }
+    };
+}
+
+macro_rules! c06_stale_bytes {
+    ($name:ident, $table:expr, $target:expr) => {
+        #[kani::proof]
+        #[kani::unwind(6)]
+        #[kani::stub(Decoder::read_frame, model_read_frame)]
+        fn $name() {
+            use std::io::{Seek, SeekFrom};
+            let mut buf: VecDeque<u8> = VecDeque::new();
+            buf.push_back(kani::any());
+            buf.push_back(kani::any());
+            buf.push_back(kani::any());
+            let mut d = model_decoder(1, 16, $table);
+            d.current_sample = MB;
+            d.reader.frame = 1;
+            let mut rd: FlacByteReader<ModelSrc, crate::byteorder::LittleEndian> = FlacByteReader {
+                decoder: d,
+                buf,
+                endianness: std::marker::PhantomData,
+                frames_start: Some(MFS),
+            };
+            let r = rd.seek(SeekFrom::Start($target * 2));
+            assert!(matches!(r, Ok(p) if p == $target * 2));
+            assert!(rd.buf.is_empty());
+            assert!(rd.decoder.current_sample == $target && rd.decoder.reader.frame == $target / MB);
+            std::mem::forget(r);
+            std::mem::forget(rd);
+        }
+    };
+}
+
+// @harness prop=C06 tier=quick expect=pass timeout=900 replay=driver
+// @units decode::FlacSampleReader::seek decode::Decoder::seek
+// @stubs decode::Decoder::read_frame(model stream)
+// @bound mono model stream, no seek table; reader holding 3 stale samples (arbitrary values) decoded before the seek; target 0 (a landing point, so no frame has to be decoded to observe the buffer)
+// @oracle after Ok the stale samples are gone (buffer empty: the next read decodes the frame at the landing point) and the decoder is positioned at the target
+c06_stale_sample!(c06_sample_reader_seek_drops_stale_no_table, None, 0);
+
+// @harness prop=C06 tier=quick expect=pass timeout=900 replay=driver
+// @units decode::FlacByteReader::seek decode::Decoder::seek
+// @stubs decode::Decoder::read_frame(model stream)
+// @bound byte reader (16-bit mono: 2 bytes per PCM frame) holding 3 stale bytes; no seek table; SeekFrom::Start(0)
+// @oracle Ok(0); stale bytes gone; decoder positioned at the target
+c06_stale_bytes!(c06_byte_reader_seek_drops_stale_no_table, None, 0);
+
+// (landing on a seek point other than the stream start makes the landing
+// position a value read from the heap-allocated table; the skip loop with its
+// VecDeque/Frame::iter refill is then explored symbolically and does not finish
+// in 900 s - outside the claim)
